@@ -17,6 +17,7 @@ Part 2 (specs/deps/WrapFetch*.tla): the wrap acquisition pipeline.
 from __future__ import annotations
 
 import json
+import os
 import random
 import sys
 import typing as T
@@ -87,23 +88,27 @@ def build_cases(space: T.Dict[str, T.Any], tier: str, seed: int) -> T.List[dl.Ce
     cases: T.List[dl.Cell] = []
     quick = tier == 'quick'
 
-    def add(kind: str, cfg: T.Dict[str, T.Any], as_: T.List[T.Dict[str, T.Any]]) -> None:
-        cases.append({'id': f'{kind}{len(cases)}', 'cfg': cfg, 'as': as_})
+    def add(kind: str, cfg: T.Dict[str, T.Any], as_: T.List[T.Dict[str, T.Any]], meth: str = 'auto') -> None:
+        cases.append({'id': f'{kind}{len(cases)}', 'cfg': cfg, 'as': as_, 'meth': meth})
 
     # single cells, each lookup repeated (RepeatStable on the implementation)
     if quick:
-        n_cells, n_invalid, n_seq = 2600, 40, 900
+        n_cells, n_invalid, n_seq, n_meth = 2600, 40, 900, 240
         weights = [PRE_WEIGHT[c['pre']] for c in configs]
         for cfg in rnd.choices(configs, weights=weights, k=n_cells):
             a = rnd.choice(valid)
             add('cell', cfg, [a, a] if rnd.random() < 0.8 else [a, a, a])
     else:
-        n_invalid, n_seq = 400, 24000
+        n_invalid, n_seq, n_meth = 400, 16000, 3000
         for cfg in configs:
             for a in valid:
                 add('cell', cfg, [a, a] if rnd.random() < 0.8 else [a, a, a])
     for _ in range(n_invalid):
         add('inv', rnd.choice(configs), [rnd.choice(invalid)])
+    # the same policy must hold when the lookup names a detection method (the documents know no exception)
+    for cfg in rnd.choices(configs, weights=[PRE_WEIGHT[c['pre']] for c in configs], k=n_meth):
+        a = rnd.choice(valid)
+        add('meth', cfg, [a, a], 'pkgconfig')
     # sequences of three lookups with different arguments on the same name
     weights = [PRE_WEIGHT[c['pre']] for c in configs]
     for cfg in rnd.choices(configs, weights=weights, k=n_seq):
@@ -112,6 +117,15 @@ def build_cases(space: T.Dict[str, T.Any], tier: str, seed: int) -> T.List[dl.Ce
             as_.append(as_[-1] if rnd.random() < 0.2 else rnd.choice(valid))
         add('seq', cfg, as_)
     return cases
+
+
+def signature(v: T.Dict[str, T.Any], c: T.Dict[str, T.Any], upto: int) -> str:
+    if not c:
+        return f"{v['clause']}@?"
+    if c.get('meth') == 'pkgconfig' and v.get('ovr', 'none') != 'none':
+        # one defect, many cells: an explicit override is not seen by dependency(..., method: ...)
+        return f"OverrideIgnoredWithMethodKwarg@override={v['ovr']}"
+    return f"{v['clause']}@{dl.cell_key(c['cfg'], c['as'][:upto])}" + ('/method=pkg-config' if c.get('meth') == 'pkgconfig' else '')
 
 
 def part1(chk: Check) -> None:
@@ -178,9 +192,9 @@ def part1(chk: Check) -> None:
     for v in bad:
         c = by_id.get(v['id'], {})
         upto = v.get('step') or len(c.get('as', []))
-        sig = f"{v['clause']}@{dl.cell_key(c.get('cfg', {}), c.get('as', [])[:upto])}" if c else f"{v['clause']}@?"
-        chk.violation(sig, {'part': 'deplookup', 'verdict': v, 'cfg': c.get('cfg'), 'as': c.get('as'), 'observed': c.get('obs'),
-                            'asked': c.get('asked'), 'seed': chk.seed})
+        sig = signature(v, c, upto)
+        chk.violation(sig, {'part': 'deplookup', 'verdict': v, 'cfg': c.get('cfg'), 'as': c.get('as'), 'meth': c.get('meth', 'auto'),
+                            'observed': c.get('obs'), 'asked': c.get('asked'), 'seed': chk.seed})
     if totals['unobserved']:
         chk.assumptions.append(f"{totals['unobserved']} cells were left unobserved after repeated unexpected aborts "
                                '(each abort is itself reported)')
@@ -194,9 +208,14 @@ def main(chk: Check) -> None:
                 'subproject configured, a fallback/override answer, an error, or differing answers within the history '
                 '(distinct abstract histories).  part 2: wrap scenarios x 2 runs; non-trivial = some location is absent or '
                 'corrupt, or a patch/diff stage exists.')
-    part1(chk)
-    wf.part2(chk)
-    chk.exhaustive = chk.tier == 'thorough'
+    parts = os.environ.get('C10_PARTS', '12')      # development aid: run one half only (evidence then says so)
+    if '1' in parts:
+        part1(chk)
+    if '2' in parts:
+        wf.part2(chk)
+    if parts != '12':
+        chk.assumptions.append(f'PARTIAL RUN: C10_PARTS={parts}')
+    chk.exhaustive = chk.tier == 'thorough' and parts == '12'
     chk.assumptions += [
         'one dependency name and one candidate subproject per cell; names are lower-case; lookups use the default method '
         '(pkg-config; cmake is hidden by a private PATH) because `method:` is part of the override identity',
@@ -213,7 +232,7 @@ def replay(chk: Check, data: T.Dict[str, T.Any]) -> None:
     if det.get('part') == 'wrapfetch':
         wf.replay(chk, det)
         return
-    cell = {'id': 'replay', 'cfg': det['cfg'], 'as': det['as'], 'abort': 0}
+    cell = {'id': 'replay', 'cfg': det['cfg'], 'as': det['as'], 'abort': 0, 'meth': det.get('meth', 'auto')}
     pred, _ = tlc_trace('TraceDepLookup', [cell], 'predict', ('id', 'cfg', 'as'))
     if pred:
         cell['abort'] = pred[0]['step']
@@ -224,9 +243,9 @@ def replay(chk: Check, data: T.Dict[str, T.Any]) -> None:
     bad, _ = tlc_trace('TraceDepLookup', [cell], 'judge', ('id', 'cfg', 'as', 'obs', 'asked'))
     for v in bad:
         upto = v.get('step') or len(cell['as'])
-        chk.violation(f"{v['clause']}@{dl.cell_key(cell['cfg'], cell['as'][:upto])}",
-                      {'part': 'deplookup', 'verdict': v, 'cfg': cell['cfg'], 'as': cell['as'], 'observed': cell['obs'],
-                       'asked': cell['asked'], 'seed': det.get('seed', 0)})
+        chk.violation(signature(v, cell, upto),
+                      {'part': 'deplookup', 'verdict': v, 'cfg': cell['cfg'], 'as': cell['as'], 'meth': cell['meth'],
+                       'observed': cell['obs'], 'asked': cell['asked'], 'seed': det.get('seed', 0)})
 
 
 if __name__ == '__main__':
